@@ -42,7 +42,9 @@ type aggSpec struct {
 type searchSpec struct {
 	ID        string    `json:"id"`
 	Query     string    `json:"query"`
-	Fields    []string  `json:"fields"`
+	Fields    []string  `json:"fields"`                // keyword-mapped
+	TextFields []string `json:"text_fields,omitempty"` // text-mapped (several words = conjunction)
+	PathFields []string `json:"path_fields,omitempty"` // path-mapped
 	From      uint64    `json:"from"`
 	To        uint64    `json:"to"`
 	Hist      uint64    `json:"hist"`
@@ -191,6 +193,18 @@ var (
 	pipePath  string
 )
 
+// mapping of the store (MappingProvider) and of the synchronous reference search
+func (s searchSpec) mapping() seq.Mapping {
+	m := keywordMapping(s.Fields)
+	for _, f := range s.TextFields {
+		m[f] = seq.NewSingleType(seq.TokenizerTypeText, "", 0)
+	}
+	for _, f := range s.PathFields {
+		m[f] = seq.NewSingleType(seq.TokenizerTypePath, "", 0)
+	}
+	return m
+}
+
 func keywordMapping(fields []string) seq.Mapping {
 	m := seq.Mapping{}
 	for _, f := range fields {
@@ -230,7 +244,7 @@ func (s searchSpec) params() processor.SearchParams {
 
 func (s searchSpec) parsed() (processor.SearchParams, error) {
 	p := s.params()
-	ast, err := parser.ParseSeqQL(s.Query, keywordMapping(s.Fields))
+	ast, err := parser.ParseSeqQL(s.Query, s.mapping())
 	if err != nil {
 		return p, err
 	}
@@ -316,12 +330,12 @@ func registerChildOps() {
 		gateClosed.Store(e.Gate)
 		if e.LoadOnly {
 			as, err := fracmanager.VerifC19LoadAsync(fracmanager.AsyncSearcherConfig{DataDir: e.AsyncDir, Parallelism: e.Parallelism},
-				mappingProvider{keywordMapping(e.Spec.Fields)}, c.FM)
+				mappingProvider{e.Spec.mapping()}, c.FM)
 			asyncSearcher = as
 			return answer(childResp{}), err
 		}
 		asyncSearcher = fracmanager.MustStartAsync(fracmanager.AsyncSearcherConfig{DataDir: e.AsyncDir, Parallelism: e.Parallelism},
-			mappingProvider{keywordMapping(e.Spec.Fields)}, c.FM)
+			mappingProvider{e.Spec.mapping()}, c.FM)
 		return answer(childResp{}), nil
 	})
 	storectl.Register("c19.search", func(c *storectl.Child, r storectl.Req) (storectl.Resp, error) {
